@@ -14,7 +14,13 @@ _KEY = re.compile(r"<<(\d+), (\d+)>>")
 def build_model(group):
     n = len(group)
     lines = ["states(x=1, y=1, " + ", ".join(f"s{j}=0" for j in range(n)) + ")", "parameters(a=3)"]
-    lines += [f"ds{j}_dt = {' '.join(r['toks'])}" for j, r in enumerate(group)]
+    for j, r in enumerate(group):
+        if r.get("via"):
+            # the singular argument goes through the intermediate w<j> (depends on a state)
+            lines += [f"w{j} = {' '.join(r['via_w'])}", f"ds{j}_dt = {' '.join(f'w{j}' if t == 'w' else t for t in r['via_body'])}"]
+        else:
+            # the same name, this time an intermediate of parameters only (never the singular variable)
+            lines += [f"w{j} = a - 2", f"ds{j}_dt = {' '.join(r['toks'])}"]
     lines += ["dx_dt = 0", "dy_dt = 0"]
     return "\n".join(lines) + "\n"
 
@@ -84,8 +90,11 @@ def _worker(args):
 def replay(recs, header, nproc=16, batch=1):
     aval = qf(header["a"])
     recs = sorted(recs, key=lambda r: " ".join(r["toks"]))
+    # every expression whose removable nodes share one argument is run a second time with that argument routed
+    # through an intermediate (interleaved with the plain form: one process sees the name in both roles)
+    recs = [x for r in recs for x in ([r, dict(r, via=True)] if r.get("via_ok") else [r])]
     groups = [recs[i:i + batch] for i in range(0, len(recs), batch)]
-    stats = {"expressions": len(recs), "models": len(groups), "compared_on_singular": 0, "compared_off_singular": 0,
+    stats = {"expressions": len(recs), "through_an_intermediate": sum(1 for r in recs if r.get("via")), "models": len(groups), "compared_on_singular": 0, "compared_off_singular": 0,
              "undefined": 0, "errors": 0, "mismatches": 0, "untouched_checked": 0, "max_model_secs": 0.0}
     bad = []
     with cf.ProcessPoolExecutor(max_workers=nproc) as ex:
@@ -93,13 +102,13 @@ def replay(recs, header, nproc=16, batch=1):
             stats["max_model_secs"] = max(stats["max_model_secs"], round(out["secs"], 1))
             for (i, en, msg) in out["errors"]:
                 stats["errors"] += 1
-                bad.append({"kind": "error", "text": " ".join(g[i]["toks"]), "nsing": g[i]["nsing"], "exception": en, "message": msg})
+                bad.append({"kind": "error", "via": bool(g[i].get("via")), "text": " ".join(g[i]["toks"]), "nsing": g[i]["nsing"], "exception": en, "message": msg})
             for i, vals in out["values"].items():
                 r = g[int(i)]
                 if not r["removable"]:
                     stats["untouched_checked"] += 1
                     if out["changed"][i]:
-                        bad.append({"kind": "touched", "text": " ".join(r["toks"]), "nsing": r["nsing"]})
+                        bad.append({"kind": "touched", "via": bool(r.get("via")), "text": " ".join(r["toks"]), "nsing": r["nsing"]})
                 for key, gp in r["grid"].items():
                     v = gp["ref"]
                     if v["k"] == "u":
@@ -113,7 +122,7 @@ def replay(recs, header, nproc=16, batch=1):
                     stats["compared_on_singular" if gp["on_singular"] else "compared_off_singular"] += 1
                     if not resid.close(vals[key], want, mag):
                         stats["mismatches"] += 1
-                        bad.append({"kind": "value", "text": " ".join(r["toks"]), "nsing": r["nsing"], "on_singular": gp["on_singular"],
+                        bad.append({"kind": "value", "via": bool(r.get("via")), "text": " ".join(r["toks"]), "nsing": r["nsing"], "on_singular": gp["on_singular"],
                                     "x": resid.fmt(gp["x"]), "y": resid.fmt(gp["y"]), "got": vals[key], "want": float(want),
                                     "original_model_gives": out["orig"][i][key]})
     return stats, bad
